@@ -47,6 +47,9 @@ def shards(tier, seed):
         for tdt in tdts:
             for prec in (('float32', 'float64') if tier == 'thorough' or grp in ('moments', 'partitioned') else ('float32',)):
                 out.append({'name': '%s-%s-%s' % (grp, tdt, prec), 'group': grp, 'tdt': tdt, 'prec': prec, 'cost': cost})
+    for fam in ('cpa', 'dpa', 'anova', 'snr', 'mia'):
+        for prec in (('float32',) if tier == 'quick' else ('float32', 'float64')):
+            out.append({'name': 'analysis-%s-%s' % (fam, prec), 'group': 'analysis', 'fam': fam, 'prec': prec, 'cost': 8})
     return out
 
 
@@ -76,10 +79,23 @@ def run_shard(shard, ctx):
     from checks import dsys
     col = Collector()
     if shard.get('replay_case') is not None:
-        dsys.replay_case(col, shard['replay_case'], PROPERTY)
+        c = shard['replay_case']
+        if 'analysis_system' in c:
+            d = c['analysis_system']
+            s = AnalysisSystem(d['analysis'], d['kind'], d['precision'], d['convergence_step'], ctx['seed'], N=d['N'])
+            obj = s.fresh(); m = s.model_init()
+            for ev in c['history']:
+                ev = tuple(ev); obs = s.apply(obj, ev); m, viol = s.model_step(m, ev, obs); col.transitions += 1
+                for fp, msg in viol: col.violation(fp, msg, c)
+            col.evaluations += 1; col.states += 1
+            return col.result()
+        dsys.replay_case(col, c, PROPERTY)
         return col.result()
     frac.selftest()
     tier, seed = ctx['tier'], ctx['seed']
+    if shard['group'] == 'analysis':
+        r = _analysis_shard(col, shard, ctx)
+        return col.result(raised=r)
     raised = set(); accepted = set()
     for kw in configs(shard, tier):
         s = dsys.DistSystem(seed=seed, **kw)
@@ -98,3 +114,201 @@ def finalize(shards_, results, tier, seed):
     return {'refused_call_kinds_exercised': kinds, 'menu_calls_accepted_by_the_implementation': acc,
             'histories_represented': sum(r.get('counters', {}).get('histories_represented', 0) for r in results),
             'guard_failures': [] if len(kinds) >= 20 else ['vacuity: only %d (family, kind) refusals exercised' % len(kinds)]}
+
+
+# ---------------------------------------------------------------------------------------------------------------------
+# analysis-level variant: process() / run() steps that raise must leave the analysis as if they had never been made
+
+class AnalysisSystem:
+    """Events on a real analysis object (Attack with or without convergence step, or Reverse):
+        ('P', k)            process() of a valid batch holding the next k rows
+        ('C',)              compute_results()
+        ('R', kind)         process() of a batch the pipeline refuses (rows / len / missing metadata / list samples / float data ...)
+        ('RUN', k, f)       run() on a container of the next k rows cut in batches of one trace whose preprocess raises on batch f (f < k):
+                            the batches before f are accepted steps, the failing step must leave no trace
+    Model: number of accepted rows (always a prefix of the pool).  Oracle: results == stand-alone distinguisher fed the accepted rows at once
+    (bit-identical, exact pool), scores == discriminant(results), processed_traces == accepted rows."""
+
+    def __init__(self, fam, kind, prec, step, seed, N=5):
+        import numpy as np
+        from checks import asys
+        self.np, self.asys = np, asys
+        self.fam, self.kind, self.prec, self.step, self.N = fam, kind, prec, step, N
+        self.pool = asys.make_set(N, 3, 2, seed, salt=161)
+        self.raised_kinds = set(); self.accepted_kinds = set()
+        self.counters = {}
+        s = asys.sc()
+        self.fail_at = {'i': None, 'n': 0}
+        me = self
+
+        @s.preprocess
+        def maybe_fail(traces):
+            if me.fail_at['i'] is not None:
+                me.fail_at['n'] += 1
+                if me.fail_at['n'] - 1 == me.fail_at['i']:
+                    raise ValueError('injected preprocess failure')
+            return traces
+        self.pp = maybe_fail
+
+    def describe(self):
+        return {'analysis': self.fam, 'kind': self.kind, 'precision': self.prec, 'convergence_step': self.step, 'N': self.N}
+
+    def fresh(self):
+        self._rows = 0
+        return self.asys.make_analysis(self.fam, self.kind, self.prec, disc='maxabs', convergence_step=self.step if self.kind == 'attack' else None, fresh_sf=True)
+
+    def digest(self, obj):
+        from mc.common import canon_state
+        return canon_state(obj)
+
+    def model_init(self):
+        return (0, 0, 0, ())          # accepted rows, consecutive computes, refusals, kinds
+
+    def terminal(self, m):
+        return m[0] == self.N and m[1] >= 1
+
+    def menu(self, m):
+        i, c, nr, rk = m
+        out = []
+        for k in range(1, self.N - i + 1):
+            out.append((('P', k), 0))
+        if c < 1 and i > 0:
+            out.append((('C',), 0))
+        if nr < 2:
+            for kind in ('rows', 'len', 'missing', 'list_samples', 'floatdata'):
+                if kind == 'len' and i == 0: continue
+                if kind == 'floatdata' and self.fam in ('cpa',): continue
+                out.append((('R', kind), 1))
+            for k in range(2, self.N - i + 1):
+                for f in sorted({0, k - 1}):
+                    out.append((('RUN', k, f), 1))
+        return out
+
+    class _Batch:
+        def __init__(self, samples, metadatas):
+            self.samples = samples; self.metadatas = metadatas
+
+    def apply(self, obj, ev):
+        np = self.np; s = self.asys.sc()
+        obs = {'ev': ev, 'exc': None}
+        lo = self._rows
+        # own the kernel-selection clock (a function of the object's own timing state, see checks/dsys.py)
+        from scared.distinguishers import partitioned as P
+        from mc import env
+        clk = env.install_clock(P)
+        clk.dur = float(max(getattr(obj, '_timings', [-2, -1]))) + 1.0; clk._pending = False
+        try:
+            if ev[0] == 'P':
+                obj.process(self._Batch(self.pool['samples'][lo:lo + ev[1]], {'v': self.pool['v'][lo:lo + ev[1]]}))
+                self._rows += ev[1]
+            elif ev[0] == 'C':
+                obj.compute_results()
+                obs['results'] = np.array(obj.results)
+                obs['scores'] = None if self.kind != 'attack' else np.array(obj.scores)
+            elif ev[0] == 'R':
+                k = 2 if lo + 2 <= self.N else 1
+                lo2 = min(lo, self.N - k)
+                smp = self.pool['samples'][lo2:lo2 + k]; v = self.pool['v'][lo2:lo2 + k]
+                kind = ev[1]
+                if kind == 'rows': b = self._Batch(smp, {'v': np.concatenate([v, v[:1]])})
+                elif kind == 'len': b = self._Batch(np.concatenate([smp, smp[:, :1]], axis=1), {'v': v})
+                elif kind == 'missing': b = self._Batch(smp, {'w': v})
+                elif kind == 'list_samples': b = self._Batch(smp.tolist(), {'v': v})
+                elif kind == 'floatdata': b = self._Batch(smp, {'v': v.astype('float64')})
+                obj.process(b)
+            elif ev[0] == 'RUN':
+                k, f = ev[1], ev[2]
+                d = {kk: vv[lo:lo + k] for kk, vv in self.pool.items()}
+                self.fail_at['i'] = f; self.fail_at['n'] = 0
+                try:
+                    with self.asys.BatchSize(1):
+                        cont = s.Container(self.asys.ths_of(d), preprocesses=[self.pp])
+                        _ = cont.trace_size                      # (evaluated before arming would be cleaner; the probe call counts as call 0 otherwise)
+                        self.fail_at['n'] = 0
+                        obj.run(cont)
+                finally:
+                    self.fail_at['i'] = None
+                self._rows += k
+        except Exception as e:       # noqa - observation
+            obs['exc'] = type(e).__name__; obs['exc_msg'] = str(e)[:160]
+            if ev[0] == 'RUN':
+                self._rows += ev[2]                           # the batches before the failing one were accepted steps
+        obs['pt'] = int(obj.processed_traces)
+        return obs
+
+    def obs_key(self, obs):
+        r = obs.get('results')
+        return (obs['ev'][0], obs['exc'], obs['pt'], None if r is None else r.tobytes())
+
+    def model_step(self, m, ev, obs):
+        np = self.np
+        i, c, nr, rk = m
+        v = []
+        cfg = '%s %s prec=%s convergence_step=%s' % (self.fam, self.kind, self.prec, self.step)
+        after = ('after-refused=%s/' % '+'.join(rk)) if rk else ''
+        if rk: cfg += ' [after refused steps: %s]' % ', '.join(rk)
+        fpb = 'C16/analysis/%s/' % self.fam
+        if ev[0] == 'P':
+            if obs['exc'] is not None:
+                v.append((fpb + after + 'valid-process-raised', '%s: process() of a valid batch of %d rows after %d accepted rows raised %s: %s' % (cfg, ev[1], i, obs['exc'], obs.get('exc_msg'))))
+                return (i, 0, nr, rk + ('dead',) * 5), v
+            if obs['pt'] != i + ev[1]:
+                v.append((fpb + after + 'counter', '%s: processed_traces=%d after %d accepted rows' % (cfg, obs['pt'], i + ev[1])))
+            return (i + ev[1], 0, nr, rk), v
+        if ev[0] == 'R':
+            if obs['exc'] is None:
+                self.accepted_kinds.add(ev[1])
+                return (self.N, 9, nr + 1, rk), v                # not a rejection: end of branch
+            self.raised_kinds.add(ev[1])
+            if obs['pt'] != i:
+                v.append((fpb + 'refused=%s/counter' % ev[1], '%s: processed_traces=%d right after a refused %s process() with %d accepted rows' % (cfg, obs['pt'], ev[1], i)))
+            return (i, 0, nr + 1, rk + (ev[1],)), v
+        if ev[0] == 'RUN':
+            k, f = ev[1], ev[2]
+            if obs['exc'] is None:
+                v.append((fpb + 'failing-run-returned', '%s: run() returned although the preprocess raised on batch %d' % (cfg, f)))
+                return (self.N, 9, nr + 1, rk), v
+            self.raised_kinds.add('run')
+            if obs['pt'] != i + f:
+                v.append((fpb + 'failed-run/counter', '%s: processed_traces=%d after a run() that failed on its batch %d with %d rows accepted before' % (cfg, obs['pt'], f, i)))
+            return (i + f, 0, nr + 1, rk + ('run@%d' % f,)), v
+        # compute_results
+        if obs['exc'] is not None:
+            v.append((fpb + after + 'compute-raised', '%s: compute_results() after %d accepted rows raised %s: %s' % (cfg, i, obs['exc'], obs.get('exc_msg'))))
+            return (i, 1, nr, rk), v
+        X = self.pool['samples'][:i]; Y = self.asys.intermediate(self.kind, self.pool['v'][:i], self.asys.family_model(self.fam))
+        one = self.asys.oneshot(self.fam, self.prec, X, Y)
+        res = obs['results']
+        if res.shape != one.shape or not np.array_equal(res, one, equal_nan=True):
+            v.append((fpb + after + 'results', '%s: results after %d accepted rows differ from the stand-alone distinguisher fed exactly those rows (first values %s vs %s)'
+                      % (cfg, i, res.ravel()[:4].tolist(), np.asarray(one).ravel()[:4].tolist())))
+        if self.kind == 'attack':
+            exp = self.asys.py_discriminant('maxabs', res)
+            if obs['scores'] is None or not np.array_equal(obs['scores'], exp, equal_nan=True):
+                v.append((fpb + after + 'scores', '%s: scores != discriminant(results) after %d accepted rows' % (cfg, i)))
+        if obs['pt'] != i:
+            v.append((fpb + after + 'counter', '%s: processed_traces=%d after %d accepted rows (at compute_results)' % (cfg, obs['pt'], i)))
+        self.counters['computes_compared'] = self.counters.get('computes_compared', 0) + 1
+        return (i, c + 1, nr, rk), v
+
+
+def _analysis_shard(col, shard, ctx):
+    from mc.explorer import Explorer
+    tier, seed = ctx['tier'], ctx['seed']
+    fam, prec = shard['fam'], shard['prec']
+    for kind, step in (('attack', None), ('attack', 2), ('reverse', None)):
+        s = AnalysisSystem(fam, kind, prec, step, seed, N=4 if tier == 'quick' else 5)
+        e = Explorer(s, max_depth=12, max_dev=2).run()
+        rep = e.report()
+        col.states += rep['states']; col.transitions += rep['transitions']; col.evaluations += rep['histories_represented']; col.validated += rep['transitions']
+        col.nontrivial += rep['complete_histories']
+        col.count('histories_represented', rep['histories_represented']); col.count('systems')
+        for k, n in s.counters.items(): col.count(k, n)
+        for k in s.raised_kinds: col.count('refused/analysis-%s/%s' % (fam, k))
+        for k in s.accepted_kinds: col.count('accepted-not-a-rejection/analysis-%s/%s' % (fam, k))
+        col.outcomes.update((fam, kind, step, k) for k in e.observations)
+        for fp, msg, hist in e.violations:
+            col.violation(fp, msg, {'analysis_system': s.describe(), 'history': [list(ev) for ev in hist]})
+        col.sample({'analysis_system': s.describe(), 'explorer': rep, 'one_history': [list(ev) for ev in max((n[0] for n in e.nodes), key=len)]}, limit=1)
+        col.guard(len(s.raised_kinds) >= 3, 'vacuity: only %s refused for %s' % (sorted(s.raised_kinds), s.describe()))
+    return sorted('analysis-%s/%s' % (fam, k) for k in s.raised_kinds)
